@@ -342,6 +342,9 @@ def judge(inst, plan, out, base):
             v = judge_domain(inst, plan, out, V)
             if v:
                 return v, facts
+        v = judge_wrapper(inst, out, V)
+        if v:
+            return v, facts
         return None, facts
     # ---- C. a failure left the KKT interface and the solver returned a dict
     later_calls = 0
@@ -382,7 +385,31 @@ def judge(inst, plan, out, base):
         v = judge_domain(inst, plan, out, V)
         if v:
             return v, facts
+    v = judge_wrapper(inst, out, V)
+    if v:
+        return v, facts
     return None, facts
+
+
+def judge_wrapper(inst, out, V):
+    """cp and gp hand on what cpl returned: same status and accuracy fields, x without the epigraph
+    variable, snl/znl without the epigraph row, everything else untouched"""
+    if inst['kind'] not in ('cp', 'gp') or out.raw_cpl is None or not isinstance(out.res, dict):
+        return None
+    raw, res = out.raw_cpl, out.res
+    for k in ('status', 'gap', 'relative gap', 'primal objective', 'dual objective', 'primal infeasibility',
+              'dual infeasibility', 'primal slack', 'dual slack'):
+        a, b = raw.get(k), res.get(k)
+        if not (a == b or (a is None and b is None)):
+            return V('wrapper-changes-result', k, "%s reports %s = %r, the cpl call it wraps returned %r" % (inst['kind'], k, b, a), field=k)
+    try:
+        same = (list(res['x']) == list(raw['x'][0]) and list(res['snl']) == list(raw['snl'])[1:] and list(res['znl']) == list(raw['znl'])[1:]
+                and list(res['sl']) == list(raw['sl']) and list(res['zl']) == list(raw['zl']) and list(res['y']) == list(raw['y']))
+    except Exception as e:    # noqa
+        return V('wrapper-changes-result', 'vectors', '%s result vectors unreadable: %r' % (inst['kind'], e), field='vectors')
+    if not same:
+        return V('wrapper-changes-result', 'vectors', '%s result vectors differ from those of the wrapped cpl call' % inst['kind'], field='vectors')
+    return None
 
 
 def judge_domain(inst, plan, out, V):
